@@ -43,4 +43,509 @@ theorem setDigits_spec {s : Bool} {need : Nat} {t : IntTy} (h : setDigits s need
     | (injection h with h; subst h; simp [IntTy.digits]; omega)
     | (exact absurd h (by simp))
 
+/-! ## Digit rules: the exact result needs at most the digits the policy declares -/
+
+theorem natAbs_le_of_bound {D : Nat} {v : Int} (h : -(2^D - 1 : Int) ≤ v ∧ v ≤ 2^D - 1) :
+    v.natAbs + 1 ≤ 2^D := by
+  have : ((2^D : Nat) : Int) = (2:Int)^D := by simp
+  omega
+
+theorem bound_of_natAbs_le {D : Nat} {v : Int} (h : v.natAbs + 1 ≤ 2^D) :
+    -(2^D - 1 : Int) ≤ v ∧ v ≤ 2^D - 1 := by
+  have : ((2^D : Nat) : Int) = (2:Int)^D := by simp
+  omega
+def Fits (D : Nat) (s : Bool) (v : Int) : Prop :=
+  (if s then -(2^D - 1 : Int) else 0) ≤ v ∧ v ≤ 2^D - 1
+theorem fits_iff {D s v} : Fits D s v ↔ (-(2^D - 1 : Int) ≤ v ∧ v ≤ 2^D - 1) ∧ (s = false → 0 ≤ v) := by
+  unfold Fits
+  have := two_pow_pos D
+  cases s <;> simp <;> omega
+def mulDigits (a b : Nat) : Nat := max 1 ((if a = 1 then 0 else a) + (if b = 1 then 0 else b))
+theorem two_pow_max_l (a b : Nat) : (2:Int)^a ≤ 2^(max a b) := two_pow_le (Nat.le_max_left ..)
+theorem two_pow_max_r (a b : Nat) : (2:Int)^b ≤ 2^(max a b) := two_pow_le (Nat.le_max_right ..)
+theorem add_bound {a b : Nat} {l r : Int} (hl : -(2^a - 1 : Int) ≤ l ∧ l ≤ 2^a - 1)
+    (hr : -(2^b - 1 : Int) ≤ r ∧ r ≤ 2^b - 1) :
+    -(2^(max a b + 1) - 1 : Int) ≤ l + r ∧ l + r ≤ 2^(max a b + 1) - 1 := by
+  have h1 := two_pow_max_l a b
+  have h2 := two_pow_max_r a b
+  rw [two_pow_succ]
+  generalize (2:Int)^(max a b) = m at *
+  generalize (2:Int)^a = p at *
+  generalize (2:Int)^b = q at *
+  omega
+
+theorem sub_bound {a b : Nat} {l r : Int} (hl : -(2^a - 1 : Int) ≤ l ∧ l ≤ 2^a - 1)
+    (hr : -(2^b - 1 : Int) ≤ r ∧ r ≤ 2^b - 1) :
+    -(2^(max a b + 1) - 1 : Int) ≤ l - r ∧ l - r ≤ 2^(max a b + 1) - 1 := by
+  have h1 := two_pow_max_l a b
+  have h2 := two_pow_max_r a b
+  rw [two_pow_succ]
+  generalize (2:Int)^(max a b) = m at *
+  generalize (2:Int)^a = p at *
+  generalize (2:Int)^b = q at *
+  omega
+
+theorem sub_bound_unsigned {a b : Nat} {l r : Int} (hl : 0 ≤ l ∧ l ≤ 2^a - 1)
+    (hr : 0 ≤ r ∧ r ≤ 2^b - 1) :
+    -(2^(max a b) - 1 : Int) ≤ l - r ∧ l - r ≤ 2^(max a b) - 1 := by
+  have h1 := two_pow_max_l a b
+  have h2 := two_pow_max_r a b
+  generalize (2:Int)^(max a b) = m at *
+  generalize (2:Int)^a = p at *
+  generalize (2:Int)^b = q at *
+  omega
+theorem nat_mul_bound {m n A B : Nat} (hm : m + 1 ≤ A) (hn : n + 1 ≤ B) : m * n + 1 ≤ A * B := by
+  have h := Nat.mul_le_mul hm hn
+  have e : (m + 1) * (n + 1) = m * n + m + n + 1 := by
+    rw [Nat.add_mul, Nat.mul_add, Nat.one_mul, Nat.mul_one]; omega
+  omega
+
+theorem nat_le_one_mul {m n : Nat} (hm : m ≤ 1) : m * n ≤ n := by
+  have := Nat.mul_le_mul_right n hm
+  omega
+
+theorem mul_bound_nat {a b m n : Nat} (hm : m + 1 ≤ 2^a) (hn : n + 1 ≤ 2^b) :
+    m * n + 1 ≤ 2^(mulDigits a b) := by
+  unfold mulDigits
+  by_cases ha : a = 1
+  · subst ha
+    have h1 : m * n ≤ n := nat_le_one_mul (by omega)
+    by_cases hb : b = 1
+    · subst hb; simp; omega
+    · simp only [hb, ite_true, ite_false, Nat.zero_add]
+      have : 2^b ≤ 2^(max 1 b) := Nat.pow_le_pow_right (by decide) (Nat.le_max_right ..)
+      omega
+  · by_cases hb : b = 1
+    · subst hb
+      have h1 : m * n ≤ m := by rw [Nat.mul_comm]; exact nat_le_one_mul (by omega)
+      simp only [ha, ite_true, ite_false, Nat.add_zero]
+      have : 2^a ≤ 2^(max 1 a) := Nat.pow_le_pow_right (by decide) (Nat.le_max_right ..)
+      omega
+    · simp only [ha, hb, ite_false]
+      have h := nat_mul_bound hm hn
+      rw [← Nat.pow_add] at h
+      have : 2^(a+b) ≤ 2^(max 1 (a+b)) := Nat.pow_le_pow_right (by decide) (Nat.le_max_right ..)
+      omega
+
+theorem mul_bound {a b : Nat} {l r : Int} (hl : -(2^a - 1 : Int) ≤ l ∧ l ≤ 2^a - 1)
+    (hr : -(2^b - 1 : Int) ≤ r ∧ r ≤ 2^b - 1) :
+    -(2^(mulDigits a b) - 1 : Int) ≤ l * r ∧ l * r ≤ 2^(mulDigits a b) - 1 := by
+  apply bound_of_natAbs_le
+  rw [Int.natAbs_mul]
+  exact mul_bound_nat (natAbs_le_of_bound hl) (natAbs_le_of_bound hr)
+theorem div_bound {a : Nat} {l r : Int} (hl : -(2^a - 1 : Int) ≤ l ∧ l ≤ 2^a - 1) :
+    -(2^a - 1 : Int) ≤ l.tdiv r ∧ l.tdiv r ≤ 2^a - 1 := by
+  apply bound_of_natAbs_le
+  have := Int.natAbs_tdiv_le_natAbs l r
+  have := natAbs_le_of_bound hl
+  omega
+theorem mod_bound {a b : Nat} {l r : Int} (hl : -(2^a - 1 : Int) ≤ l ∧ l ≤ 2^a - 1)
+    (hr : -(2^b - 1 : Int) ≤ r ∧ r ≤ 2^b - 1) (h0 : r ≠ 0) :
+    -(2^(min a b) - 1 : Int) ≤ l.tmod r ∧ l.tmod r ≤ 2^(min a b) - 1 := by
+  apply bound_of_natAbs_le
+  have hl' := natAbs_le_of_bound hl
+  have hr' := natAbs_le_of_bound hr
+  rw [Int.natAbs_tmod]
+  have h1 : l.natAbs % r.natAbs < r.natAbs := Nat.mod_lt _ (by omega)
+  have h2 : l.natAbs % r.natAbs ≤ l.natAbs := Nat.mod_le _ _
+  by_cases hab : a ≤ b
+  · rw [Nat.min_eq_left hab]; omega
+  · rw [Nat.min_eq_right (by omega)]; omega
+
+theorem or_false_iff' {a b : Bool} (h : (a || b) = false) : a = false ∧ b = false := by
+  cases a <;> cases b <;> simp_all
+
+/-- the exact result of every operator needs at most the digits, and has the signedness, that
+`policy` declares -/
+theorem exact_fits (op : AOp) {dL dR : Nat} {sL sR : Bool} {l r : Int} {d : Nat} {sg : Bool}
+    (hl : Fits dL sL l) (hr : Fits dR sR r) (h0 : op = .mod → r ≠ 0)
+    (hp : policy (AOp.toBin op) dL sL dR sR = some (d, sg)) : Fits d sg (exact op l r) := by
+  rw [fits_iff] at hl hr ⊢
+  obtain ⟨hl, hl0⟩ := hl
+  obtain ⟨hr, hr0⟩ := hr
+  cases op with
+  | add =>
+    simp only [AOp.toBin, policy, Option.some.injEq, Prod.mk.injEq] at hp
+    obtain ⟨rfl, rfl⟩ := hp
+    refine ⟨add_bound hl hr, fun h => ?_⟩
+    have ⟨h1, h2⟩ := or_false_iff' h
+    have := hl0 h1; have := hr0 h2
+    simp only [exact]; omega
+  | sub =>
+    simp only [AOp.toBin, policy, Option.some.injEq, Prod.mk.injEq] at hp
+    obtain ⟨rfl, rfl⟩ := hp
+    refine ⟨?_, fun h => absurd h (by decide)⟩
+    by_cases hs : (sL || sR) = true
+    · simp only [hs, ite_true]; exact sub_bound hl hr
+    · have hs' : (sL || sR) = false := by simpa using hs
+      have ⟨h1, h2⟩ := or_false_iff' hs'
+      simp only [hs']
+      exact sub_bound_unsigned ⟨hl0 h1, hl.2⟩ ⟨hr0 h2, hr.2⟩
+  | mul =>
+    simp only [AOp.toBin, policy, Option.some.injEq, Prod.mk.injEq] at hp
+    obtain ⟨rfl, rfl⟩ := hp
+    refine ⟨mul_bound hl hr, fun h => ?_⟩
+    have ⟨h1, h2⟩ := or_false_iff' h
+    exact Int.mul_nonneg (hl0 h1) (hr0 h2)
+  | div =>
+    simp only [AOp.toBin, policy, Option.some.injEq, Prod.mk.injEq] at hp
+    obtain ⟨rfl, rfl⟩ := hp
+    refine ⟨div_bound hl, fun h => ?_⟩
+    have ⟨h1, h2⟩ := or_false_iff' h
+    exact Int.tdiv_nonneg (hl0 h1) (hr0 h2)
+  | mod =>
+    simp only [AOp.toBin, policy, Option.some.injEq, Prod.mk.injEq] at hp
+    obtain ⟨rfl, rfl⟩ := hp
+    refine ⟨mod_bound hl hr (h0 rfl), fun h => ?_⟩
+    have ⟨h1, h2⟩ := or_false_iff' h
+    exact Int.tmod_nonneg _ (hl0 h1)
+
+/-! ## Binary operators -/
+
+theorem ENum.inRange_iff (x : ENum) : x.InRange ↔ Fits x.digits x.narrowest.signed x.value := Iff.rfl
+
+/-- a value that fits `D` digits with signedness `s` is in range of every type with at least `D`
+digits that is signed whenever `s` is -/
+theorem inRange_of_fits {t : IntTy} {D : Nat} {s : Bool} {v : Int} (hD : D ≤ t.digits)
+    (h : Fits D s v) (hs : t.signed = false → s = false) : t.InRange v := by
+  rw [fits_iff] at h
+  exact IntTy.inRange_of_digits hD h.1.1 h.1.2 (fun ht => h.2 (hs ht))
+
+theorem Fits.mono {D s v} (h : Fits D s v) {s' : Bool} (hs : s' = false → s = false) : Fits D s' v := by
+  rw [fits_iff] at h ⊢
+  exact ⟨h.1, fun h' => h.2 (hs h')⟩
+
+/-- signedness of the policy result is at least that of each operand -/
+theorem policy_signed (op : AOp) {dL dR : Nat} {sL sR : Bool} {d : Nat} {sg : Bool}
+    (hp : policy (AOp.toBin op) dL sL dR sR = some (d, sg)) (h : sg = false) : sL = false ∧ sR = false := by
+  cases op <;> simp only [AOp.toBin, policy, Option.some.injEq, Prod.mk.injEq] at hp <;>
+    obtain ⟨_, rfl⟩ := hp <;> first | exact or_false_iff' h | exact absurd h (by decide)
+
+theorem policy_some (op : AOp) (dL dR : Nat) (sL sR : Bool) :
+    ∃ d sg, policy (AOp.toBin op) dL sL dR sR = some (d, sg) := by
+  cases op <;> exact ⟨_, _, rfl⟩
+
+/-- `binOp` up to the last storage selection: the operands convert unchanged into the operand
+representation and the built-in operator returns the exact result, which fits the policy's digits -/
+theorem binOp_step (op : AOp) (x y : ENum) (hx : x.InRange) (hy : y.InRange)
+    (h0 : (op = .div ∨ op = .mod) → y.value ≠ 0)
+    {d : Nat} {sg : Bool} {R O : IntTy}
+    (hp : policy (AOp.toBin op) x.digits x.narrowest.signed y.digits y.narrowest.signed = some (d, sg))
+    (hR : repTy d ⟨max x.narrowest.bits y.narrowest.bits, sg⟩ = some R)
+    (hO : setDigits R.signed (operandDigits R x.digits y.digits) = some O) :
+    binOp (AOp.toBin op) x y =
+        (match repTy d ⟨x.narrowest.bits, (promote O).signed⟩ with
+         | none => .ill "result digits exceed the widest integer"
+         | some F => .ok ⟨d, ⟨x.narrowest.bits, (promote O).signed⟩, F.wrap (exact op x.value y.value)⟩) ∧
+      Fits d sg (exact op x.value y.value) ∧ ((promote O).signed = false → sg = false) := by
+  have ⟨hRs, hRd, _⟩ := setDigits_spec hR
+  have ⟨hOs, hOd, hOb⟩ := setDigits_spec hO
+  simp only at hRs
+  have hOb1 : 1 ≤ O.bits := by omega
+  unfold operandDigits at hOd
+  have hOsg : O.signed = false → sg = false := fun h => by rw [← hRs, ← hOs]; exact h
+  have hPsg : (promote O).signed = false → sg = false := fun h => hOsg (promote_unsigned h).1
+  -- operands convert unchanged
+  have hxO : O.InRange x.value := inRange_of_fits (by omega) hx (fun h => (policy_signed op hp (hOsg h)).1)
+  have hyO : O.InRange y.value := inRange_of_fits (by omega) hy (fun h => (policy_signed op hp (hOsg h)).2)
+  -- the exact result
+  have he : Fits d sg (exact op x.value y.value) := exact_fits op hx hy (fun h => h0 (Or.inr h)) hp
+  have hdP : d ≤ (promote O).digits := by have := promote_digits_le hOb1; omega
+  have heP : (promote O).InRange (exact op x.value y.value) := inRange_of_fits hdP he hPsg
+  have hdiv : (op = .div ∨ op = .mod) → y.value ≠ 0 ∧ ¬(x.value = (promote O).lowest ∧ y.value = -1) := by
+    intro h
+    refine ⟨h0 h, fun ⟨h1, h2⟩ => ?_⟩
+    have hyP := (promote_inRange hOb1 hyO).1
+    rw [IntTy.lowest_eq] at hyP h1
+    have hx' := ((fits_iff.mp hx).1).1
+    have hpw : (2:Int)^x.digits ≤ 2^(promote O).digits := two_pow_le (by have := promote_digits_le hOb1; omega)
+    by_cases hs : (promote O).signed = true
+    · simp only [hs, ite_true] at h1; omega
+    · simp only [hs] at hyP; simp at hyP; omega
+  have hc := cBin_same_exact O hOb1 op x.value y.value hxO hyO heP hdiv
+  refine ⟨?_, he, hPsg⟩
+  simp only [binOp, hp, hR, hO, convert, IntTy.wrap_id hOb1 hxO, IntTy.wrap_id hOb1 hyO, hc]
+  rfl
+
+/-- `binOp` when the three storage selections succeed: the exact result, in the policy's digits -/
+theorem binOp_core (op : AOp) (x y : ENum) (hx : x.InRange) (hy : y.InRange)
+    (h0 : (op = .div ∨ op = .mod) → y.value ≠ 0)
+    {d : Nat} {sg : Bool} {R O F : IntTy}
+    (hp : policy (AOp.toBin op) x.digits x.narrowest.signed y.digits y.narrowest.signed = some (d, sg))
+    (hR : repTy d ⟨max x.narrowest.bits y.narrowest.bits, sg⟩ = some R)
+    (hO : setDigits R.signed (operandDigits R x.digits y.digits) = some O)
+    (hF : repTy d ⟨x.narrowest.bits, (promote O).signed⟩ = some F) :
+    binOp (AOp.toBin op) x y = .ok ⟨d, ⟨x.narrowest.bits, (promote O).signed⟩, exact op x.value y.value⟩ ∧
+      Fits d sg (exact op x.value y.value) ∧ ((promote O).signed = false → sg = false) := by
+  have ⟨h1, he, hPsg⟩ := binOp_step op x y hx hy h0 hp hR hO
+  have ⟨hFs, hFd, hFb⟩ := setDigits_spec hF
+  simp only at hFs
+  have heF : F.InRange (exact op x.value y.value) :=
+    inRange_of_fits (by omega) he (fun h => hPsg (by rw [← hFs]; exact h))
+  refine ⟨?_, he, hPsg⟩
+  rw [h1]; simp only [hF, IntTy.wrap_id (by omega : 1 ≤ F.bits) heF]
+
+/-- `binOp` whenever the result type exists (the instantiation is well-formed) -/
+theorem binOp_wf (op : AOp) (x y : ENum) (hx : x.InRange) (hy : y.InRange)
+    (h0 : (op = .div ∨ op = .mod) → y.value ≠ 0)
+    (hwf : ∀ m, binOp (AOp.toBin op) x y ≠ .ill m) :
+    ∃ d sg n, policy (AOp.toBin op) x.digits x.narrowest.signed y.digits y.narrowest.signed = some (d, sg) ∧
+      binOp (AOp.toBin op) x y = .ok ⟨d, n, exact op x.value y.value⟩ ∧
+      Fits d sg (exact op x.value y.value) ∧ (n.signed = false → sg = false) := by
+  obtain ⟨d, sg, hp⟩ := policy_some op x.digits y.digits x.narrowest.signed y.narrowest.signed
+  cases hR : repTy d ⟨max x.narrowest.bits y.narrowest.bits, sg⟩ with
+  | none =>
+    have : binOp (AOp.toBin op) x y = .ill "result digits exceed the widest integer" := by
+      simp only [binOp, hp, hR]
+    exact absurd this (hwf _)
+  | some R =>
+    cases hO : setDigits R.signed (operandDigits R x.digits y.digits) with
+    | none =>
+      have : binOp (AOp.toBin op) x y = .ill "operand digits exceed the widest integer" := by
+        simp only [binOp, hp, hR, hO]
+      exact absurd this (hwf _)
+    | some O =>
+      cases hF : repTy d ⟨x.narrowest.bits, (promote O).signed⟩ with
+      | none =>
+        have ⟨h1, _, _⟩ := binOp_step op x y hx hy h0 hp hR hO
+        rw [hF] at h1
+        exact absurd h1 (hwf _)
+      | some F =>
+        have ⟨h1, he, hs⟩ := binOp_core op x y hx hy h0 hp hR hO hF
+        exact ⟨d, sg, _, hp, h1, he, hs⟩
+
+/-! ## Unary minus and shifts by a constant -/
+
+/-- unary minus when the storage selection succeeds -/
+theorem neg_core (x : ENum) (hx : x.InRange) {rep : IntTy}
+    (hR : repTy x.digits ⟨x.narrowest.bits, true⟩ = some rep) :
+    neg x = .ok ⟨x.digits, ⟨x.narrowest.bits, true⟩, -x.value⟩ ∧ Fits x.digits true (-x.value) := by
+  have ⟨hRs, hRd, hRb⟩ := setDigits_spec hR
+  simp only at hRs
+  have hb1 : 1 ≤ rep.bits := by omega
+  have hxR : rep.InRange x.value := inRange_of_fits (by omega) hx (fun h => by rw [hRs] at h; cases h)
+  have hP := promote_bits_ge hb1
+  have hPs := promote_signed_of_signed hRs
+  have hn : Fits x.digits true (-x.value) := by
+    have := (fits_iff.mp hx).1
+    rw [fits_iff]; refine ⟨by omega, fun h => by cases h⟩
+  have hnP : (promote rep).InRange (-x.value) :=
+    inRange_of_fits (by have := promote_digits_le hb1; omega) hn (fun h => by rw [hPs] at h; cases h)
+  have hnR : rep.InRange (-x.value) := inRange_of_fits (by omega) hn (fun h => by rw [hRs] at h; cases h)
+  refine ⟨?_, hn⟩
+  simp only [neg, hR, convert, IntTy.wrap_id hb1 hxR, cNeg, IntTy.wrap_id hP (promote_inRange hb1 hxR),
+    arith_ok hP hnP, IntTy.wrap_id hb1 hnR]
+
+theorem neg_wf (x : ENum) (hx : x.InRange) (hwf : ∀ m, neg x ≠ .ill m) :
+    neg x = .ok ⟨x.digits, ⟨x.narrowest.bits, true⟩, -x.value⟩ ∧ Fits x.digits true (-x.value) := by
+  cases hR : repTy x.digits ⟨x.narrowest.bits, true⟩ with
+  | none =>
+    have : neg x = .ill "digits exceed the widest integer" := by simp only [neg, hR]
+    exact absurd this (hwf _)
+  | some rep => exact neg_core x hx hR
+
+theorem shl_bound {D k : Nat} {s : Bool} {v : Int} (h : Fits D s v) : Fits (D + k) s (v * 2^k) := by
+  rw [fits_iff] at h ⊢
+  obtain ⟨⟨h1, h2⟩, h3⟩ := h
+  have hq := two_pow_pos k
+  have e : (2:Int)^(D+k) = 2^D * 2^k := two_pow_add D k
+  have u := Int.mul_le_mul_of_nonneg_right h2 (Int.le_of_lt hq)
+  have l := Int.mul_le_mul_of_nonneg_right h1 (Int.le_of_lt hq)
+  rw [Int.sub_mul, Int.one_mul] at u
+  rw [Int.neg_mul, Int.sub_mul, Int.one_mul] at l
+  rw [e]
+  refine ⟨?_, fun hs => Int.mul_nonneg (h3 hs) (Int.le_of_lt hq)⟩
+  generalize (2:Int)^D * 2^k = m at *
+  generalize v * 2^k = w at *
+  omega
+
+theorem promote_bits_le (t : IntTy) : t.bits ≤ (promote t).bits := by
+  unfold promote; split
+  · simp [i32]; omega
+  · exact Nat.le_refl _
+
+theorem digits_le_bits (t : IntTy) : t.digits ≤ t.bits := by
+  unfold IntTy.digits; split <;> omega
+
+theorem digits_lt_bits {t : IntTy} (hs : t.signed = true) (hb : 1 ≤ t.bits) : t.digits < t.bits := by
+  unfold IntTy.digits; simp [hs]; omega
+
+theorem shlConst_step (x : ENum) (k : Nat) (hx : x.InRange) (hd : 1 ≤ x.digits) {rep : IntTy}
+    (hR : repTy (x.digits + k) x.narrowest = some rep) :
+    shlConst x k =
+      (match repTy (x.digits + k) ⟨x.narrowest.bits, (promote rep).signed⟩ with
+       | some F => .ok ⟨x.digits + k, ⟨x.narrowest.bits, (promote rep).signed⟩, F.wrap (x.value * 2^k)⟩
+       | none => .ill "digits exceed the widest integer") ∧
+      ((promote rep).signed = false → x.narrowest.signed = false) := by
+  have ⟨hRs, hRd, hRb⟩ := setDigits_spec hR
+  have hb1 : 1 ≤ rep.bits := by omega
+  have hPs : (promote rep).signed = false → x.narrowest.signed = false :=
+    fun h => by rw [← hRs]; exact (promote_unsigned h).1
+  have hxR : rep.InRange x.value := inRange_of_fits (by omega) hx (fun h => by rw [← hRs]; exact h)
+  have hk : ¬((k : Int) < 0 ∨ (k : Int) ≥ (promote rep).bits) := by
+    have := promote_bits_le rep
+    have := digits_le_bits rep
+    omega
+  have hs := shl_bound (k := k) hx
+  have hsP : (promote rep).InRange (x.value * 2^k) :=
+    inRange_of_fits (by have := promote_digits_le hb1; omega) hs hPs
+  refine ⟨?_, hPs⟩
+  simp only [shlConst, hR, convert, IntTy.wrap_id hb1 hxR, cBin, hk, ite_false, Int.toNat_natCast,
+    IntTy.wrap_id (promote_bits_ge hb1) hsP]
+  rfl
+
+
+/-- `x << constant<k>` whenever the result type exists: `x · 2^k` in `digits + k` digits -/
+theorem shlConst_wf (x : ENum) (k : Nat) (hx : x.InRange) (hd : 1 ≤ x.digits)
+    (hwf : ∀ m, shlConst x k ≠ .ill m) :
+    ∃ n, shlConst x k = .ok ⟨x.digits + k, n, x.value * 2^k⟩ ∧
+      (n.signed = false → x.narrowest.signed = false) := by
+  cases hR : repTy (x.digits + k) x.narrowest with
+  | none =>
+    have : shlConst x k = .ill "digits exceed the widest integer" := by simp only [shlConst, hR]
+    exact absurd this (hwf _)
+  | some rep =>
+    have ⟨h1, hPs⟩ := shlConst_step x k hx hd hR
+    cases hF : repTy (x.digits + k) ⟨x.narrowest.bits, (promote rep).signed⟩ with
+    | none => rw [hF] at h1; exact absurd h1 (hwf _)
+    | some F =>
+      have ⟨hFs, hFd, hFb⟩ := setDigits_spec hF
+      simp only at hFs
+      have hsF : F.InRange (x.value * 2^k) :=
+        inRange_of_fits (by omega) (shl_bound (k := k) hx) (fun h => hPs (by rw [← hFs]; exact h))
+      rw [hF] at h1
+      simp only [IntTy.wrap_id (by omega : 1 ≤ F.bits) hsF] at h1
+      exact ⟨_, h1, hPs⟩
+
+/-- floor division by `2^k` removes `k` digits, except that the most negative quotient is
+`-2^(D-k)`, one below the symmetric range -/
+theorem shr_bound {D k : Nat} {s : Bool} {v : Int} (h : Fits D s v) (hk : k ≤ D) :
+    -(2^(D-k) : Int) ≤ v / 2^k ∧ v / 2^k ≤ 2^(D-k) - 1 ∧ (s = false → 0 ≤ v / 2^k) := by
+  rw [fits_iff] at h
+  obtain ⟨⟨h1, h2⟩, h3⟩ := h
+  have hq := two_pow_pos k
+  have e : (2:Int)^D = 2^(D-k) * 2^k := by rw [← two_pow_add]; congr 1; omega
+  rw [e] at h1 h2
+  refine ⟨?_, ?_, fun hs => Int.ediv_nonneg (h3 hs) (Int.le_of_lt hq)⟩
+  · apply Int.le_ediv_of_mul_le hq
+    rw [Int.neg_mul]
+    generalize (2:Int)^(D-k) * 2^k = m at *
+    omega
+  · have : v / 2^k < 2^(D-k) := Int.ediv_lt_of_lt_mul hq (by omega)
+    omega
+
+/-- in range of every type with at least `D` digits, allowing the asymmetric lowest value -/
+theorem inRange_of_digits' {t : IntTy} {D : Nat} {v : Int} (hD : D ≤ t.digits)
+    (hlo : -(2^D : Int) ≤ v) (hhi : v ≤ 2^D - 1) (hs : t.signed = false → 0 ≤ v) : t.InRange v := by
+  have hp := two_pow_le hD
+  unfold IntTy.InRange
+  rw [IntTy.max_eq, IntTy.lowest_eq]
+  constructor
+  · split
+    · omega
+    · rename_i h; exact hs (by simpa using h)
+  · omega
+
+theorem shrConst_step (x : ENum) (k : Nat) (hx : x.InRange) (hk : k < x.digits) {rep : IntTy}
+    (hR : repTy x.digits x.narrowest = some rep) :
+    shrConst x k =
+      (match repTy (x.digits - k) ⟨x.narrowest.bits, (promote rep).signed⟩ with
+       | some F => .ok ⟨x.digits - k, ⟨x.narrowest.bits, (promote rep).signed⟩, F.wrap (x.value / 2^k)⟩
+       | none => .ill "digits exceed the widest integer") ∧
+      ((promote rep).signed = false → x.narrowest.signed = false) := by
+  have ⟨hRs, hRd, hRb⟩ := setDigits_spec hR
+  have hb1 : 1 ≤ rep.bits := by omega
+  have hPs : (promote rep).signed = false → x.narrowest.signed = false :=
+    fun h => by rw [← hRs]; exact (promote_unsigned h).1
+  have hxR : rep.InRange x.value := inRange_of_fits (by omega) hx (fun h => by rw [← hRs]; exact h)
+  have hk' : ¬((k : Int) < 0 ∨ (k : Int) ≥ (promote rep).bits) := by
+    have := promote_bits_le rep
+    have := digits_le_bits rep
+    omega
+  refine ⟨?_, hPs⟩
+  simp only [shrConst, hR, convert, IntTy.wrap_id hb1 hxR, cBin, hk', ite_false, Int.toNat_natCast]
+  rfl
+
+/-- `x >> constant<k>` whenever the result type exists: `⌊x / 2^k⌋` in `digits - k` digits -/
+theorem shrConst_wf (x : ENum) (k : Nat) (hx : x.InRange) (hk : k < x.digits)
+    (hwf : ∀ m, shrConst x k ≠ .ill m) :
+    ∃ n, shrConst x k = .ok ⟨x.digits - k, n, x.value / 2^k⟩ ∧
+      (n.signed = false → x.narrowest.signed = false) := by
+  cases hR : repTy x.digits x.narrowest with
+  | none =>
+    have : shrConst x k = .ill "digits exceed the widest integer" := by simp only [shrConst, hR]
+    exact absurd this (hwf _)
+  | some rep =>
+    have ⟨h1, hPs⟩ := shrConst_step x k hx hk hR
+    cases hF : repTy (x.digits - k) ⟨x.narrowest.bits, (promote rep).signed⟩ with
+    | none => rw [hF] at h1; exact absurd h1 (hwf _)
+    | some F =>
+      have ⟨hFs, hFd, hFb⟩ := setDigits_spec hF
+      simp only at hFs
+      have ⟨b1, b2, b3⟩ := shr_bound hx (Nat.le_of_lt hk)
+      have hsF : F.InRange (x.value / 2^k) :=
+        inRange_of_digits' (by omega) b1 b2 (fun h => b3 (hPs (by rw [← hFs]; exact h)))
+      rw [hF] at h1
+      simp only [IntTy.wrap_id (by omega : 1 ≤ F.bits) hsF] at h1
+      exact ⟨_, h1, hPs⟩
+
+/-! ## Comparison -/
+
+/-- the exact comparison of two mathematical integers -/
+def cmpExact (op : CmpOp) (l r : Int) : Bool :=
+  match op with
+  | .lt => decide (l < r)
+  | .le => decide (l ≤ r)
+  | .gt => decide (l > r)
+  | .ge => decide (l ≥ r)
+  | .eq => decide (l = r)
+  | .ne => decide (l ≠ r)
+
+/-- comparing two in-range values of one type compares the values -/
+theorem cCmp_same_exact (O : IntTy) (hb : 1 ≤ O.bits) (op : CmpOp) (a b : Int)
+    (ha : O.InRange a) (hb' : O.InRange b) : cCmp op (O, a) (O, b) = cmpExact op a b := by
+  have hP := promote_bits_ge hb
+  have wa : (promote O).wrap a = a := IntTy.wrap_id hP (promote_inRange hb ha)
+  have wb : (promote O).wrap b = b := IntTy.wrap_id hP (promote_inRange hb hb')
+  cases op <;> simp only [cCmp, cmpExact, usualArith_self, wa, wb]
+
+/-- the common type of two narrowest types of signedness `s` is unsigned only if `s` is -/
+theorem commonType_unsigned {a b : Nat} {s : Bool}
+    (h : (commonType ⟨a, s⟩ ⟨b, s⟩).signed = false) : s = false := by
+  cases s with
+  | false => rfl
+  | true =>
+    exfalso
+    unfold commonType usualArith at h
+    have h1 : (promote ⟨a, true⟩).signed = true := promote_signed_of_signed rfl
+    have h2 : (promote ⟨b, true⟩).signed = true := promote_signed_of_signed rfl
+    simp only [h1, h2, beq_self_eq_true, ite_true] at h
+    split at h
+    · simp at h
+    · split at h <;> simp_all
+
+theorem cmp_core (op : CmpOp) (x y : ENum) (hx : x.InRange) (hy : y.InRange) {rep : IntTy}
+    (hR : repTy (max x.digits y.digits)
+      (commonType ⟨x.narrowest.bits, x.narrowest.signed || y.narrowest.signed⟩
+                  ⟨y.narrowest.bits, x.narrowest.signed || y.narrowest.signed⟩) = some rep) :
+    cmp op x y = .ok (cmpExact op x.value y.value) := by
+  have ⟨hRs, hRd, hRb⟩ := setDigits_spec hR
+  have hb1 : 1 ≤ rep.bits := by omega
+  have hs : rep.signed = false → x.narrowest.signed = false ∧ y.narrowest.signed = false :=
+    fun h => or_false_iff' (commonType_unsigned (by rw [← hRs]; exact h))
+  have hxR : rep.InRange x.value := inRange_of_fits (by omega) hx (fun h => (hs h).1)
+  have hyR : rep.InRange y.value := inRange_of_fits (by omega) hy (fun h => (hs h).2)
+  simp only [cmp, hR, convert, IntTy.wrap_id hb1 hxR, IntTy.wrap_id hb1 hyR,
+    cCmp_same_exact rep hb1 op _ _ hxR hyR]
+
+theorem cmp_wf (op : CmpOp) (x y : ENum) (hx : x.InRange) (hy : y.InRange)
+    (hwf : ∀ m, cmp op x y ≠ .ill m) : cmp op x y = .ok (cmpExact op x.value y.value) := by
+  cases hR : repTy (max x.digits y.digits)
+      (commonType ⟨x.narrowest.bits, x.narrowest.signed || y.narrowest.signed⟩
+                  ⟨y.narrowest.bits, x.narrowest.signed || y.narrowest.signed⟩) with
+  | none =>
+    have : cmp op x y = .ill "digits exceed the widest integer" := by simp only [cmp, hR]
+    exact absurd this (hwf _)
+  | some rep => exact cmp_core op x y hx hy hR
+
 end Cnl.Elastic
